@@ -155,3 +155,11 @@ package integrate
 //@   assert [unique-ancestor] vidx(anc(c, b - a), a) && anc(c, b - a) * pow2(b - a) <= c && c <= (anc(c, b - a) + 1) * pow2(b - a) - 1
 //@   assert [floor-of-minus-one] c == 0 - 1 ==> anc(c, b - a) == 0 - 1
 //@ end
+
+//@ func ChangeSpatialIdsZoom
+//@   props C03 C15
+//@   nooverflow
+//@   requires forall k :: 0 <= k && k < len(spatialIds) ==> (nf(spatialIds[k]) == 4 && isnum(fld(spatialIds[k], 0)) ==> 0 <= val(fld(spatialIds[k], 0)) && val(fld(spatialIds[k], 0)) <= 35)
+//@   ensures [err-zoom] !(0 <= zoom && zoom <= 35) ==> r1 != nil && len(r0) == 0
+//@   ensures [err-arity] (exists k :: 0 <= k && k < len(spatialIds) && nf(spatialIds[k]) != 4) ==> r1 != nil && len(r0) == 0
+//@ end
